@@ -116,6 +116,7 @@ F8 == << Doc("F8", "self-opt", SObj(Props2("v", SInt, "next", SRef("T")), {"v"})
          Doc2("F8", "alias", SRef("N"), "N", SObj(Props1("q", SInt), {"q"})),
          Doc2("F8", "alias-scalar", SRef("N"), "N", [type |-> "string", minLength |-> 1]),
          Doc2("F8", "ref-twice", SObj(Props2("p", SRef("N"), "q", SRef("N")), {"p"}), "N", EnumS(<<JS(<<"x">>), JS(<<"y">>)>>)),
+         Doc2("F8", "mutual-tuple", SOneOf(<<SInt, SRef("U")>>), "U", STuple(<<SRef("T"), SRef("T")>>)),
          Doc("F8", "self-map", SObj(Props1("kids", SMap(SRef("T"))), {})) >>
 
 Tag(v) == EnumS(<<JS(v)>>)
@@ -187,5 +188,19 @@ N ==   [k \in DOMAIN NP |-> Doc("N", NId("tuple", NP[k]), STuple(<<X(NP[k][1]), 
     \o [i \in DOMAIN InnerPool |-> Doc("N", "tuple3-" \o InnerPool[i].id, STuple(<<X(i), SInt, X(i)>>))]
     \o [i \in DOMAIN InnerPool |-> Doc("N", "arr-in-prop-" \o InnerPool[i].id, SObj(Props2("v", SArr(X(i)), "w", STuple(<<X(i), SStr>>)), {}))]
 
-QuickUniverse == F1 \o F2 \o F3 \o F4 \o F5 \o F6 \o F7 \o F8 \o F9 \o F10 \o Fix11 \o N
+(* A: array-valued properties - every combination of required / uniqueItems / minItems / maxItems *)
+ArrProp(req, uniq, mn, mx) ==
+    Doc("A", (IF req THEN "req" ELSE "opt") \o (IF uniq THEN "-set" ELSE "-vec")
+             \o (IF mn = -1 THEN "-minx" ELSE IF mn = 0 THEN "-min0" ELSE "-min1")
+             \o (IF mx = -1 THEN "-maxx" ELSE "-max2"),
+        SObj(Props2("id", SStr,
+                    "tags", [type |-> "array", items |-> SStr]
+                            @@ (IF uniq THEN [uniqueItems |-> TRUE] ELSE << >>)
+                            @@ (IF mn >= 0 THEN [minItems |-> mn] ELSE << >>)
+                            @@ (IF mx >= 0 THEN [maxItems |-> mx] ELSE << >>)),
+             IF req THEN {"id", "tags"} ELSE {"id"}))
+AFam == LET cs == SetToSeq(BOOLEAN \X BOOLEAN \X {-1, 0, 1} \X {-1, 2})
+        IN [i \in DOMAIN cs |-> ArrProp(cs[i][1], cs[i][2], cs[i][3], cs[i][4])]
+
+QuickUniverse == F1 \o F2 \o F3 \o F4 \o F5 \o F6 \o F7 \o F8 \o F9 \o F10 \o Fix11 \o N \o AFam
 =============================================================================
